@@ -64,7 +64,8 @@ theorem solveLD_solves (L : SymCsr ℝ n) (dinv : Vector ℝ n) (hL : lowerOk L 
 theorem sym2dense_symmetric (M : SymCsr ℝ n) (a b : Fin n) : (fullM M)[a][b] = (fullM M)[b][a] :=
   fullM_symm M a b
 
-theorem solveLD_inverts_partial (M L : SymCsr ℝ n) (dinv : Vector ℝ n)
+/-- certificate form: if the stored factors reconstruct `M` (`LᵀDL = M`), `mj_mulM ∘ mj_solveM = id` -/
+theorem solveLD_inverts_of_cert (M L : SymCsr ℝ n) (dinv : Vector ℝ n)
     (hM : lowerOk M = true) (hL : lowerOk L = true) (hd : ∀ i : Fin n, dinv[i] ≠ 0)
     (hfac : ∀ a b : Fin n, ldlEntry L dinv a b = entry M a b) (x : Vector ℝ n) (a : Fin n) :
     (mulM M (solveLD L dinv x))[a] = x[a] := by
@@ -74,7 +75,8 @@ theorem solveLD_inverts_partial (M L : SymCsr ℝ n) (dinv : Vector ℝ n)
   intro j _
   rw [hfac]
 
-theorem solveLD_mulM_partial (M L : SymCsr ℝ n) (dinv : Vector ℝ n)
+/-- certificate form, other direction: `mj_solveM ∘ mj_mulM = id` (a surjective endomorphism of `ℝⁿ` is injective) -/
+theorem solveLD_mulM_of_cert (M L : SymCsr ℝ n) (dinv : Vector ℝ n)
     (hM : lowerOk M = true) (hL : lowerOk L = true) (hd : ∀ i : Fin n, dinv[i] ≠ 0)
     (hfac : ∀ a b : Fin n, ldlEntry L dinv a b = entry M a b) (v : Vector ℝ n) (a : Fin n) :
     (solveLD L dinv (mulM M v))[a] = v[a] := by
@@ -88,16 +90,61 @@ theorem solveLD_mulM_partial (M L : SymCsr ℝ n) (dinv : Vector ℝ n)
     refine ⟨fun b => (solveLD L dinv (Vector.ofFn f))[b], ?_⟩
     rw [← hmul]
     funext a
-    rw [solveLD_inverts_partial M L dinv hM hL hd hfac]
+    rw [solveLD_inverts_of_cert M L dinv hM hL hd hfac]
     simp
   have hinj : Function.Injective A.mulVec :=
     mulVec_injective_iff_isUnit.2 (mulVec_surjective_iff_isUnit.1 hsurj)
   have key : A *ᵥ (fun b => (solveLD L dinv (mulM M v))[b]) = A *ᵥ (fun b => v[b]) := by
     rw [← hmul, ← hmul]
     funext a
-    rw [solveLD_inverts_partial M L dinv hM hL hd hfac]
+    rw [solveLD_inverts_of_cert M L dinv hM hL hd hfac]
   exact congrFun (hinj key) a
 
+
+/-- **`mj_factorI` reconstructs `M`**: on a tree pattern (`lowerOk`, `treeOk`), whenever every stored `qLDiagInv` is
+non-zero (i.e. no zero pivot was met), the factors left in `qLD` satisfy `LᵀDL = M` entry by entry — `L` the unit
+lower-triangular matrix of the off-diagonal slots, `D = 1 / qLDiagInv` = the diagonal slots — and the pattern is
+unchanged. -/
+theorem ltdl_reconstruct (M : SymCsr ℝ n) (hM : lowerOk M = true) (hT : treeOk M = true)
+    (hnz : ∀ r : Fin n, (factorI M).2[r] ≠ 0) :
+    lowerOk (factorI M).1 = true ∧
+    (∀ r : Fin n, (factorI M).2[r] = 1 / (factorI M).1[r].d) ∧
+    ∀ a b : Fin n, ldlEntry (factorI M).1 (factorI M).2 a b = entry M a b := by
+  have hL := (lowerOk_iff M).1 hM
+  obtain ⟨hP, hD, hE⟩ := factorI_spec M hL ((treeOk_iff M).1 hT) hnz
+  exact ⟨(lowerOk_iff _).2 (hP.lowerOk hL), fun r => (hD r).1, hE⟩
+
+/-- **`mj_solveM` inverts `mj_mulM`** (both directions), for the factorisation `mj_factorM` computes -/
+theorem solveM_mulM_inverse (M : SymCsr ℝ n) (hM : lowerOk M = true) (hT : treeOk M = true)
+    (hnz : ∀ r : Fin n, (factorI M).2[r] ≠ 0) (v : Vector ℝ n) (a : Fin n) :
+    (solveLD (factorI M).1 (factorI M).2 (mulM M v))[a] = v[a] ∧
+    (mulM M (solveLD (factorI M).1 (factorI M).2 v))[a] = v[a] := by
+  obtain ⟨h1, _, h3⟩ := ltdl_reconstruct M hM hT hnz
+  exact ⟨solveLD_mulM_of_cert M _ _ hM h1 hnz h3 v a, solveLD_inverts_of_cert M _ _ hM h1 hnz h3 v a⟩
+
+/-- the hypotheses are satisfiable: the 2-dof chain `M = [[2, 1], [1, 3]]` (row 1 = child of row 0) -/
+noncomputable def exM : SymCsr ℝ 2 :=
+  #v[{ off := [], dcol := 0, d := 2 }, { off := [(0, 1)], dcol := 1, d := 3 }]
+
+set_option maxRecDepth 4000 in
+example : lowerOk exM = true ∧ treeOk exM = true ∧ ∀ r : Fin 2, (factorI exM).2[r] ≠ 0 := by
+  refine ⟨by decide, by decide, ?_⟩
+  have h : (factorI exM).2 = #v[(3/5 : ℝ), 1/3] := by
+    simp only [factorI, exM, List.finRange_succ, List.finRange_zero, List.map_nil, List.map_cons, List.foldr_cons,
+      List.foldr_nil, factorRow]
+    simp [Row.vals, Row.addPrefix, addToScl, InertiaSparse.one, InertiaSparse.zero]
+    norm_num
+    rfl
+  intro r
+  rw [h]
+  fin_cases r <;> simp
+
+/-- a 3-dof pattern with branching (rows 1 and 2 are both children of row 0 … row 2 also of row 1) is accepted -/
+example : lowerOk (#v[{ off := [], dcol := 0, d := 2 }, { off := [(0, 1)], dcol := 1, d := 3 },
+      { off := [(0, 1/2), (1, 1)], dcol := 2, d := 4 }] : SymCsr ℝ 3) = true ∧
+    treeOk (#v[{ off := [], dcol := 0, d := 2 }, { off := [(0, 1)], dcol := 1, d := 3 },
+      { off := [(0, 1/2), (1, 1)], dcol := 2, d := 4 }] : SymCsr ℝ 3) = true := by
+  exact ⟨by decide, by decide⟩
 
 end sparse
 
@@ -215,6 +262,22 @@ theorem sum_congruence_pd (J : ι → Matrix (Fin 6) (Fin n) ℝ) (I : ι → Ma
     have s1 : 0 ≤ ∑ b, star (J b *ᵥ x) ⬝ᵥ (I b *ᵥ (J b *ᵥ x)) := Finset.sum_nonneg (fun b _ => h1 b)
     have s2 : 0 < ∑ i, arm i * x i ^ 2 := Finset.sum_pos' (fun i _ => h2 i) ⟨i, Finset.mem_univ _, this⟩
     linarith
+
+/-- the hypotheses of `sum_congruence_pd` are satisfiable: one body, `J` selecting two coordinates, `I = 1`, no armature -/
+example : ∃ (J : Unit → Matrix (Fin 6) (Fin 2) ℝ) (I : Unit → Matrix (Fin 6) (Fin 6) ℝ) (arm : Fin 2 → ℝ),
+    (∀ b, (I b).PosDef) ∧ (∀ i, 0 ≤ arm i) ∧
+    (∀ v : Fin 2 → ℝ, v ≠ 0 → (∃ b, J b *ᵥ v ≠ 0) ∨ (∃ i, 0 < arm i ∧ v i ≠ 0)) := by
+  refine ⟨fun _ => Matrix.of (fun i j => if (i : ℕ) = j then 1 else 0), fun _ => 1, fun _ => 0,
+    fun _ => PosDef.one, fun _ => le_refl _, ?_⟩
+  intro v hv
+  left
+  refine ⟨(), ?_⟩
+  intro h0
+  apply hv
+  funext j
+  have := congrFun h0 ⟨j.1, by omega⟩
+  simp only [mulVec, dotProduct, Matrix.of_apply, Pi.zero_apply] at this
+  fin_cases j <;> simpa [Fin.sum_univ_two] using this
 
 end psd
 
